@@ -23,6 +23,7 @@ import (
 	"runtime/debug"
 	"sort"
 	"strings"
+	"time"
 
 	"gopkg.in/yaml.v3"
 
@@ -66,6 +67,15 @@ type tcase struct {
 	Functional bool     `json:"functional"`
 	// lifecycle histories emitted by spec/LifecycleTotal.tla (same shape as Lifecycle.tla behaviours)
 	Reqs []lcReq `json:"reqs"`
+	// jump / initerr / director families
+	StmtC    string `json:"jstmt"`
+	Nest     string `json:"nest"`
+	CallKind string `json:"callkind"`
+	Class    string `json:"class"`
+	DType    string `json:"dtype"`
+	Weight   string `json:"weight"`
+	Quorum   string `json:"quorum"`
+	Retries  string `json:"retries"`
 	// request family: classes of method / path / query / headers and the program that inspects them
 	Method  string `json:"method"`
 	Path    string `json:"path"`
@@ -197,8 +207,10 @@ func assignText(c *tcase) (setup, stmt string, ok bool) {
 // ---------------------------------------------------------------- concretise: built-in arguments
 
 var argClasses = map[string][]string{
-	"STRING":  {`""`, `"a"`, "req.http.Never-Set", `"%E3%81%82 \ ( [ * ? + {"`, `"-1"`, `"9999999999999999999999"`},
-	"INTEGER": {"0", "-1", "9223372036854775807", "64", "math.INTEGER_MIN", "1"},
+	// strings of length 0, 1, 2, 3 (sizes that multiply with counts), not set, and awkward contents
+	"STRING": {`""`, `"a"`, "req.http.Never-Set", `"%E3%81%82 \ ( [ * ? + {"`, `"ab"`, `"abc"`, `"-1"`, `"9999999999999999999999"`},
+	// 2^62 and 2^62+1: with a size of 2..4 the product wraps around 2^63 / 2^64
+	"INTEGER": {"0", "-1", "9223372036854775807", "64", "math.INTEGER_MIN", "1", "4611686018427387904", "4611686018427387905"},
 	"FLOAT":   {"0.0", "-1.5", "math.FLOAT_MAX", "0.5", "math.NAN", "math.POS_INFINITY"},
 	"BOOL":    {"true", "false"},
 	// variadic string lists: zero-length is not expressible, so one, several, empty and not-set members
@@ -281,21 +293,13 @@ func callsVCL(c *tcase) string {
 func serve(ip *interpreter.Interpreter, n int) (string, string) {
 	outcome, msg := "value", ""
 	for k := 0; k < n; k++ {
-		rec := httptest.NewRecorder()
-		req := httptest.NewRequest("GET", "http://localhost/p?q=1", nil)
-		ip.ServeHTTP(rec, req)
-		res := rec.Result()
-		body, _ := io.ReadAll(res.Body)
-		var rep struct {
-			Error string `json:"error"`
+		o, ok := serveOne(ip, httptest.NewRequest("GET", "http://localhost/p?q=1", nil))
+		if !ok {
+			return "hang", fmt.Sprintf("request %d of %d on one simulator instance was not answered within %s", k+1, n, requestBudget)
 		}
-		json.Unmarshal(body, &rep) // nolint:errcheck
-		if rep.Error != "" || res.StatusCode >= 500 {
+		if o.errText != "" || o.status >= 500 {
 			outcome = "error"
-			msg = rep.Error
-			if msg == "" {
-				msg = strings.TrimSpace(string(body))
-			}
+			msg = o.errText
 			if len(msg) > 200 {
 				msg = msg[:200]
 			}
@@ -457,6 +461,12 @@ func run(args []string) int {
 			r = runRequest(c)
 		case "prog":
 			r = runProg(b.Prog)
+		case "jump":
+			r = runJump(c)
+		case "initerr":
+			r = runInitErr(c)
+		case "director":
+			r = runDirector(c)
 		default:
 			r = result{Outcome: "unbound", Msg: "unknown case kind " + c.K}
 		}
@@ -771,4 +781,243 @@ func runProg(p *evalrt.Program) result {
 		}
 	}
 	return result{Outcome: "value", Text: text.String()}
+}
+
+// ---------------------------------------------------------------- histories on one instance with a per-request watchdog
+
+const requestBudget = 20 * time.Second // normal: a few milliseconds
+
+type reqOutcome struct {
+	status   int
+	errText  string
+	restarts int
+}
+
+// serveOne sends one request to the instance; a request that is not answered within the budget is a hang
+// (the goroutine is abandoned - e.g. blocked on the instance lock).
+func serveOne(ip *interpreter.Interpreter, req *http.Request) (reqOutcome, bool) {
+	done := make(chan reqOutcome, 1)
+	go func() {
+		rec := httptest.NewRecorder()
+		ip.ServeHTTP(rec, req)
+		hr := rec.Result()
+		body, _ := io.ReadAll(hr.Body)
+		var rep struct {
+			Restarts int    `json:"restarts"`
+			Error    string `json:"error"`
+		}
+		json.Unmarshal(body, &rep) // nolint:errcheck
+		e := rep.Error
+		if e == "" && hr.StatusCode >= 500 {
+			e = strings.TrimSpace(string(body))
+		}
+		done <- reqOutcome{status: hr.StatusCode, errText: firstLine(e), restarts: rep.Restarts}
+	}()
+	select {
+	case o := <-done:
+		return o, true
+	case <-time.After(requestBudget):
+		return reqOutcome{}, false
+	}
+}
+
+func serveHistory(vcl string, ip *interpreter.Interpreter, n int) result {
+	res := result{Outcome: "value", Text: vcl}
+	var per []string
+	for k := 0; k < n; k++ {
+		req := httptest.NewRequest("GET", "http://localhost/h", nil)
+		req.Header.Set("X-Req", strconv.Itoa(k+1))
+		o, ok := serveOne(ip, req)
+		if !ok {
+			res.Outcome = "hang"
+			res.Msg = fmt.Sprintf("request %d of %d on one simulator instance was not answered within %s", k+1, n, requestBudget)
+			res.PerReq = strings.Join(append(per, "hang"), ",")
+			return res
+		}
+		if o.restarts > res.Restarts {
+			res.Restarts = o.restarts
+		}
+		if o.errText != "" || o.status >= 500 {
+			per = append(per, "error")
+			res.Outcome = "error"
+			res.Msg = o.errText
+		} else {
+			per = append(per, "ok")
+		}
+	}
+	res.PerReq = strings.Join(per, ",")
+	return res
+}
+
+// ---------------------------------------------------------------- jump family
+
+var forwardAction = map[string]string{"recv": "lookup", "hit": "deliver", "miss": "fetch", "pass": "pass", "fetch": "deliver",
+	"error": "deliver", "deliver": "deliver"}
+
+func runJump(c *tcase) result {
+	var stmt string
+	switch c.StmtC {
+	case "restart_stmt":
+		stmt = "restart;"
+	case "restart_ret":
+		stmt = "return(restart);"
+	case "error_stmt":
+		stmt = "error 601;"
+	case "error_ret":
+		stmt = "return(error);"
+	default:
+		stmt = "return(" + forwardAction[c.Scope] + ");"
+	}
+	var body string
+	switch c.Nest {
+	case "top":
+		body = "  " + stmt + "\n"
+	case "if":
+		body = "  if (!req.http.Never-Set) {\n    " + stmt + "\n  }\n"
+	case "switch":
+		body = "  switch (req.http.Never-Set) {\n  case \"x\":\n    break;\n  default:\n    " + stmt + "\n    break;\n  }\n"
+	default:
+		body = "  {\n    " + stmt + "\n  }\n"
+	}
+	var sb strings.Builder
+	sb.WriteString(stubBackend())
+	var invoke string
+	switch c.CallKind {
+	case "plain":
+		sb.WriteString("sub bounce {\n" + body + "}\n")
+		invoke = "  call bounce;\n"
+	case "fcall":
+		sb.WriteString("sub bounce BOOL {\n" + body + "  return true;\n}\n")
+		invoke = "  call bounce;\n"
+	default:
+		sb.WriteString("sub bounce BOOL {\n" + body + "  return true;\n}\n")
+		invoke = "  if (bounce()) {\n    set req.http.Bounced = \"1\";\n  }\n"
+	}
+	// the route that leads a request into the scope under test (hit: the second and third request find the object)
+	switch c.Scope {
+	case "recv":
+		fmt.Fprintf(&sb, "sub vcl_recv {\n%s  return(lookup);\n}\n", invoke)
+	case "hit", "miss", "fetch", "deliver":
+		fmt.Fprintf(&sb, "sub vcl_recv {\n  return(lookup);\n}\nsub vcl_%s {\n%s}\n", c.Scope, invoke)
+	case "pass":
+		fmt.Fprintf(&sb, "sub vcl_recv {\n  return(pass);\n}\nsub vcl_pass {\n%s}\n", invoke)
+	case "error":
+		fmt.Fprintf(&sb, "sub vcl_recv {\n  error 600;\n}\nsub vcl_error {\n%s}\n", invoke)
+	}
+	vcl := sb.String()
+	ip := interpreter.New(context.WithResolver(resolver.NewStaticResolver("main", vcl)))
+	ip.Debugger = quiet{}
+	return serveHistory(vcl, ip, c.NReq)
+}
+
+// ---------------------------------------------------------------- init-error family
+
+func runInitErr(c *tcase) result {
+	base := "sub vcl_recv {\n  error 600;\n}\nsub vcl_error {\n  return (deliver);\n}\n"
+	backend := func(n string) string { return fmt.Sprintf("backend %s { .host = \"127.0.0.1\"; .port = \"1\"; }\n", n) }
+	var vcl string
+	useFiles := false
+	switch c.Class {
+	case "dup-sub":
+		vcl = "sub helper {\n  set req.http.A = \"1\";\n}\nsub helper {\n  set req.http.A = \"2\";\n}\n" + base
+	case "dup-table":
+		vcl = "table t { \"k\": \"v\", }\ntable t { \"k\": \"w\", }\n" + base
+	case "dup-acl":
+		vcl = "acl a { \"10.0.0.0\"/8; }\nacl a { \"10.0.0.0\"/8; }\n" + base
+	case "dup-backend":
+		vcl = backend("b") + backend("b") + base
+	case "dup-director":
+		vcl = backend("b") + "director d random { { .backend = b; .weight = 1; } }\ndirector d random { { .backend = b; .weight = 1; } }\n" + base
+	case "six-backends":
+		for k := 1; k <= 6; k++ {
+			vcl += backend(fmt.Sprintf("b%d", k))
+		}
+		vcl += base
+	case "include-missing":
+		vcl = "include \"nowhere\";\n" + base
+		useFiles = true
+	case "include-self":
+		vcl = "include \"main\";\n" + base
+		useFiles = true
+	case "call-tree":
+		var sb strings.Builder
+		sb.WriteString("sub l3 {\n  set req.http.A = \"1\";\n}\nsub l2 {\n")
+		for k := 0; k < 180; k++ {
+			sb.WriteString("  call l3;\n")
+		}
+		sb.WriteString("}\nsub l1 {\n")
+		for k := 0; k < 180; k++ {
+			sb.WriteString("  call l2;\n")
+		}
+		sb.WriteString("}\nsub vcl_recv {\n  call l1;\n  error 600;\n}\nsub vcl_error {\n  return (deliver);\n}\n")
+		vcl = sb.String()
+	case "director-empty":
+		vcl = "director d random { .quorum = 50%; }\n" + base
+	case "parse-error":
+		vcl = "sub vcl_recv {\n  set req.http.A = ;\n}\n"
+	default: // "runtime-control": initialisation succeeds, the request fails at run time
+		vcl = "sub vcl_recv {\n  declare local var.i INTEGER;\n  set var.i /= 0;\n}\n"
+	}
+	var ip *interpreter.Interpreter
+	if useFiles {
+		dir, err := os.MkdirTemp("", "vhc08init")
+		if err != nil {
+			return result{Outcome: "unbound", Msg: err.Error()}
+		}
+		defer os.RemoveAll(dir)
+		os.WriteFile(filepath.Join(dir, "main.vcl"), []byte(vcl), 0o644) // nolint:errcheck
+		rs, err := resolver.NewFileResolvers(filepath.Join(dir, "main.vcl"), []string{dir})
+		if err != nil || len(rs) == 0 {
+			return result{Outcome: "unbound", Msg: fmt.Sprint(err)}
+		}
+		ip = interpreter.New(context.WithResolver(rs[0]))
+	} else {
+		ip = interpreter.New(context.WithResolver(resolver.NewStaticResolver("main", vcl)))
+	}
+	ip.Debugger = quiet{}
+	text := vcl
+	if len(text) > 600 {
+		text = text[:300] + "\n...\n" + text[len(text)-200:]
+	}
+	r := serveHistory(text, ip, c.NReq)
+	return r
+}
+
+// ---------------------------------------------------------------- director family
+
+func runDirector(c *tcase) result {
+	num := func(s string) string {
+		if s == "MAX" {
+			return "9223372036854775807"
+		}
+		return s
+	}
+	var sb strings.Builder
+	sb.WriteString(stubBackend())
+	be := stubBackend()
+	sb.WriteString(strings.Replace(be, "backend example", "backend second", 1))
+	dtype := c.DType
+	if dtype == "chash" {
+		dtype = "chash"
+	}
+	fmt.Fprintf(&sb, "director d %s {\n", dtype)
+	if c.DType != "fallback" {
+		fmt.Fprintf(&sb, "  .quorum = %s%%;\n", c.Quorum)
+	}
+	if c.DType == "random" {
+		fmt.Fprintf(&sb, "  .retries = %s;\n", num(c.Retries))
+	}
+	switch c.DType {
+	case "fallback":
+		sb.WriteString("  { .backend = example; }\n  { .backend = second; }\n")
+	case "chash":
+		fmt.Fprintf(&sb, "  { .backend = example; .id = \"a\"; }\n  { .backend = second; .id = \"b\"; }\n")
+	default:
+		fmt.Fprintf(&sb, "  { .backend = example; .weight = 500; }\n  { .backend = second; .weight = %s; }\n", num(c.Weight))
+	}
+	sb.WriteString("}\nsub vcl_recv {\n  set req.backend = d;\n  return(pass);\n}\n")
+	vcl := sb.String()
+	ip := interpreter.New(context.WithResolver(resolver.NewStaticResolver("main", vcl)))
+	ip.Debugger = quiet{}
+	return serveHistory(vcl, ip, c.NReq)
 }
